@@ -511,6 +511,13 @@ func (f *spFam) Random(rng *rand.Rand) M {
 		if f.fine && rng.Intn(3) != 0 {
 			st["days"] = int64(30)
 		}
+		// a renewal sized just under / just over the space still in use (whole-GB bucket of the usage, and the next one)
+		if pi, found := k.GetStoragePaymentInfo(f.ctx, f.c.Acct(forA).S()); found && pi.SpaceUsed > 0 && !f.fine && rng.Intn(2) == 0 {
+			gbs := pi.SpaceUsed / 1_000_000_000
+			if gbs >= 1 {
+				st["units"] = (gbs + int64(rng.Intn(2))) * 1000
+			}
+		}
 		if st["ref"] == "none" && st["via"] == "name" {
 			st["via"] = "addr"
 		}
